@@ -295,14 +295,14 @@ func runProperty(P *Prog, prop, tier string, seed int, verif, outDir string) *pr
 		}
 	}
 	timeout := 10
-	order := []string{"z3-new", "z3"}
+	order := []string{"z3-new-r0", "z3-new", "z3"}
 	if tier == "thorough" {
 		timeout = 60
-		order = []string{"z3-new", "z3", "cvc5"}
+		order = []string{"z3-new-r0", "z3-new", "z3", "cvc5"}
 	}
 	scratch, _ := os.MkdirTemp("", "govc-"+prop+"-")
 	defer os.RemoveAll(scratch)
-	cfg := runCfg{dir: scratch, timeout: timeout, seed: seed, order: order, workers: runtime.NumCPU(), keep: false}
+	cfg := runCfg{dir: scratch, timeout: timeout, seed: seed, order: order, workers: (runtime.NumCPU() + 1) / 2, keep: false}
 	// obligations recorded as known findings are expected to fail: do not spend the full timeout on them
 	{
 		var rest, kf []*Obligation
@@ -320,7 +320,7 @@ func runProperty(P *Prog, prop, tier string, seed int, verif, outDir string) *pr
 			}
 		}
 		if len(kf) > 0 {
-			dischargeAll(kf, runCfg{dir: scratch + "/kf", timeout: 3, seed: seed, order: []string{"z3-new"}, workers: runtime.NumCPU()})
+			dischargeAll(kf, runCfg{dir: scratch + "/kf", timeout: 3, seed: seed, order: []string{"z3-new"}, workers: (runtime.NumCPU() + 1) / 2})
 		}
 		dischargeAll(rest, cfg)
 	}
@@ -331,7 +331,7 @@ func runProperty(P *Prog, prop, tier string, seed int, verif, outDir string) *pr
 			smokes = append(smokes, u.VC.smokes...)
 		}
 	}
-	dischargeAll(smokes, runCfg{dir: scratch + "/smoke", timeout: 2, seed: seed, order: []string{"z3-new"}, workers: runtime.NumCPU()})
+	dischargeAll(smokes, runCfg{dir: scratch + "/smoke", timeout: 2, seed: seed, order: []string{"z3-new"}, workers: (runtime.NumCPU() + 1) / 2})
 	var smokeFailed []string
 	retAll, retBad := map[string]int{}, map[string]int{}
 	for _, o := range smokes {
